@@ -82,8 +82,10 @@ def run(ctx):
     base = "xfab.atomlib.formfactor[atomtype]"
     # the table as seen from structure.py: a dictionary whose row for the requested element is nine symbols
     from xfabsa.symeval import sym_array
-    ev.import_values = {"xfab.atomlib.formfactor": {"atomtype": sym_array(base, (9,))}}
-    got = scalar(ev.call_function("FormFactor", ["atomtype", stl]))
+    # (the requested element CA next to C and H: a prefix or first-letter look-up would take another row)
+    ev.import_values = {"xfab.atomlib.formfactor": {"H": sym_array("row(H)", (9,)), "C": sym_array("row(C)", (9,)),
+                                                    "CA": sym_array(base, (9,))}}
+    got = scalar(ev.call_function("FormFactor", ["CA", stl]))
     env = {"stl": stl}
     for i in range(9):
         env["d%d" % i] = Rat.atom("%s[%d]" % (base, i))
